@@ -87,6 +87,15 @@ fn check_glob(glob: &str, ci: bool, paths: &[String]) -> Result<(u64, bool), Ver
                 sig: vec![],
             });
         }
+        // the entry point used for --path / --keep-path of the dedupe commands
+        let got_path = pat.matches_path(std::path::Path::new(p.as_str()));
+        if want != got_path && !p.is_empty() && !p.contains("//") && !p.ends_with('/') {
+            return Err(Verdict::Fail {
+                clause: "glob-match-differs-matches-path".into(),
+                detail: format!("glob {:?}{} on path {:?}: Pattern::matches_path says {}, documented semantics say {}", glob, if ci { " (ignore case)" } else { "" }, p, got_path, want),
+                sig: vec![],
+            });
+        }
     }
     Ok((paths.len() as u64, has_wildcard(glob) && has_meta_literal(glob)))
 }
@@ -415,7 +424,7 @@ pub fn check(tier: Tier) -> i32 {
 
     ctx.finish(
         "exploration",
-        "clause 1: bounded-exhaustive - every glob of <=3 (quick) / <=4 (thorough) tokens over the 19-token alphabet (literals a b . - + ( ż \\*, ?, *, **, /, [ab], [!a], {a,b*}, @(a|b), ?(a|b), +(a|b), *(a|b)) against all 2800 paths of <=4 components over {a,b,ab,a.b,-,ż,A}, case-sensitive and ignore-case, fclones' Pattern::glob vs the harness' reference matcher written from README 'Path Globbing'; random globs of up to 7 tokens. clause 2: random PathSelector configurations (include/exclude globs derived from the path with wildcard substitutions, absolute or relative to base directories whose names contain . - + ( ) $ ż or glob syntax such as [1], {a,b}, +(x), a*, q?, @(a|b)) - (a) matches_full_path must agree with the reference matcher, a relative pattern being anchored at the base directory taken literally; (b) whenever the selector selects a full path every proper ancestor directory must pass matches_dir. Non-trivial (1) = glob has a wildcard token and a metacharacter/non-ASCII literal; (2) = selected path with >=3 ancestors. Distinct by construction for the enumeration, by digest for random cases.",
+        "clause 1: bounded-exhaustive - every glob of <=3 (quick) / <=4 (thorough) tokens over the 19-token alphabet (literals a b . - + ( ż \\*, ?, *, **, /, [ab], [!a], {a,b*}, @(a|b), ?(a|b), +(a|b), *(a|b)) against all 2800 paths of <=4 components over {a,b,ab,a.b,-,ż,A}, case-sensitive and ignore-case, fclones' Pattern::glob (through Pattern::matches and Pattern::matches_path, the entry points of the scan options and of the dedupe keep/drop options) vs the harness' reference matcher written from README 'Path Globbing'; random globs of up to 7 tokens. clause 2: random PathSelector configurations (include/exclude globs derived from the path with wildcard substitutions, absolute or relative to base directories whose names contain . - + ( ) $ ż or glob syntax such as [1], {a,b}, +(x), a*, q?, @(a|b)) - (a) matches_full_path must agree with the reference matcher, a relative pattern being anchored at the base directory taken literally; (b) whenever the selector selects a full path every proper ancestor directory must pass matches_dir. Non-trivial (1) = glob has a wildcard token and a metacharacter/non-ASCII literal; (2) = selected path with >=3 ancestors. Distinct by construction for the enumeration, by digest for random cases.",
         &["!( ) is outside the statement and not generated", "globs the reference grammar cannot parse (e.g. an unbalanced '?(' produced by token concatenation) are skipped and counted"],
     )
 }
